@@ -1,2 +1,96 @@
-(* C09 - statements only (proofs pending). *)
-From N2 Require Import Model.All.
+(* C09 - discovered dependencies: statements only; proofs in Proofs/World*.v *)
+From Coq Require Import String.
+From N2 Require Import Model.All Proofs.DbSpec Proofs.WorldSpec.
+From N2 Require Import Proofs.WorldBase Proofs.WorldInc Proofs.WorldDeps Proofs.WorldDirty Proofs.WorldLog.
+
+(* --- the /showIncludes filter ------------------------------------------------------- *)
+
+Theorem C09_showincludes_filter : forall o, snd (extract_showincludes o) = join_nl (filter (fun l => negb (is_note l)) (lines o)) /\ (forall l, In l (lines (snd (extract_showincludes o))) -> strip_prefix note_prefix l = None) /\ fst (extract_showincludes o) = map include_payload (note_payloads (lines o)).
+Proof. exact showincludes_filter. Qed.
+Print Assumptions C09_showincludes_filter.
+
+Theorem C09_strip_prefix_spec : forall pre l p, strip_prefix pre l = Some p <-> l = pre ++ p.
+Proof. exact strip_prefix_spec. Qed.
+Print Assumptions C09_strip_prefix_spec.
+
+Theorem C09_note_payloads_spec : forall ls p, In p (note_payloads ls) <-> exists l, In l ls /\ l = note_prefix ++ p.
+Proof. exact note_payloads_spec. Qed.
+Print Assumptions C09_note_payloads_spec.
+
+Theorem C09_lines_join : forall ls, ls <> [] -> Forall (fun x => ~ In 10%N x) ls -> lines (join_nl ls) = ls.
+Proof. exact lines_join. Qed.
+Print Assumptions C09_lines_join.
+
+Theorem C09_lines_no_newline : forall o, Forall (fun x => ~ In 10%N x) (lines o).
+Proof. exact lines_nosep. Qed.
+Print Assumptions C09_lines_no_newline.
+
+Theorem C09_include_payload_spec : forall inc, (drop_spaces inc = [] -> include_payload inc = inc) /\ (drop_spaces inc <> [] -> include_payload inc = strip_cr (drop_spaces inc)).
+Proof. exact include_payload_spec. Qed.
+Print Assumptions C09_include_payload_spec.
+
+Theorem C09_drop_spaces_spec : forall l, exists n, l = repeat 32%N n ++ drop_spaces l /\ (forall c r, drop_spaces l = c :: r -> c <> 32%N).
+Proof. exact drop_spaces_spec. Qed.
+Print Assumptions C09_drop_spaces_spec.
+
+Theorem C09_strip_cr_spec : forall l, (exists r, l = r ++ [13%N] /\ strip_cr l = r) \/ ((forall r, l <> r ++ [13%N]) /\ strip_cr l = l).
+Proof. exact strip_cr_spec. Qed.
+Print Assumptions C09_strip_cr_spec.
+
+Theorem C09_showincludes_pinned_refuted : extract_showincludes_pinned [10%N] = ([], []) /\ lines [10%N] = [[]; []] /\ extract_showincludes [10%N] = ([], [10%N]).
+Proof. exact showincludes_pinned_refuted. Qed.
+Print Assumptions C09_showincludes_pinned_refuted.
+
+(* --- the kept list ------------------------------------------------------------------ *)
+
+Theorem C09_keep_deps_eq : forall dirtying names, keep_deps dirtying names [] = do cs <- canon_names names; Ok (kept_deps dirtying cs).
+Proof. exact keep_deps_eq. Qed.
+Print Assumptions C09_keep_deps_eq.
+
+Theorem C09_keep_deps_spec : forall dirtying names l, keep_deps dirtying names [] = Ok l -> NoDup l /\ (forall d, In d l <-> exists n, In n names /\ n <> [] /\ canon n = Ok d /\ ~ In d dirtying) /\ exists cs, canon_names names = Ok cs /\ l = kept_deps dirtying cs.
+Proof. exact keep_deps_spec. Qed.
+Print Assumptions C09_keep_deps_spec.
+
+Theorem C09_spellings_collapse : forall dirtying names l n1 n2 d, keep_deps dirtying names [] = Ok l -> In n1 names -> In n2 names -> n1 <> [] -> n2 <> [] -> canon n1 = Ok d -> canon n2 = Ok d -> ~ In d dirtying -> exists l1 l2, l = l1 ++ d :: l2 /\ ~ In d l1 /\ ~ In d l2.
+Proof. exact spellings_collapse. Qed.
+Print Assumptions C09_spellings_collapse.
+
+Theorem C09_replace_wholesale : forall w b bd reported w1 r, record_finished w b bd reported = Ok (w1, r) -> keep_deps (wb_dirtying bd) (reported_names reported) [] = Ok (disc_of w1 b) /\ forall b', b' <> b -> disc_of w1 b' = disc_of w b'.
+Proof. exact replace_wholesale. Qed.
+Print Assumptions C09_replace_wholesale.
+
+(* --- a missing discovered dependency ------------------------------------------------- *)
+
+Theorem C09_missing_dep_is_dirty_not_error : forall g w b bd d, wb_cmdline bd <> None -> (forall n, In n (wb_dirtying bd) -> (exists t, cache_get (ws_cache w) n = Some (Some t)) \/ (cache_get (ws_cache w) n = None /\ producer_of g n = None /\ fs_get (ws_fs w) n <> None)) -> stated_generated g w (disc_of w b) -> In d (disc_of w b) -> fs_get (ws_fs w) d = None -> cache_get (ws_cache w) d = None \/ cache_get (ws_cache w) d = Some None -> snd (check_build_dirty g w b bd) = DDirty 1.
+Proof. exact missing_dep_is_dirty_not_error. Qed.
+Print Assumptions C09_missing_dep_is_dirty_not_error.
+
+(* --- through the log ------------------------------------------------------------------ *)
+
+Theorem C09_record_extends_log : forall w b bd reported w1 h, record_finished w b bd reported = Ok (w1, Some h) -> exists bytes, ws_log w1 = ws_log w ++ bytes /\ write_build (ws_tbl w) (wb_outs bd) (disc_of w1 b) h = Ok (bytes, ws_tbl w1).
+Proof. exact record_extends_log. Qed.
+Print Assumptions C09_record_extends_log.
+
+Theorem C09_log_is_record : forall w ws b bd reported w1 h, log_is w ws -> record_finished w b bd reported = Ok (w1, Some h) -> log_is w1 (ws ++ [wr_of bd (disc_of w1 b) h]).
+Proof. exact log_is_record. Qed.
+Print Assumptions C09_log_is_record.
+
+Theorem C09_log_is_no_record : forall w ws b bd reported w1, log_is w ws -> record_finished w b bd reported = Ok (w1, None) -> log_is w1 ws.
+Proof. exact log_is_no_record. Qed.
+Print Assumptions C09_log_is_no_record.
+
+Theorem C09_log_is_fresh : forall g fs wL, load_state g fs [] = Ok wL -> log_is wL [].
+Proof. exact log_is_fresh. Qed.
+Print Assumptions C09_log_is_fresh.
+
+Theorem C09_load_log_is : forall g fs w ws, log_is w ws -> Forall in_bounds ws -> table_small ws -> exists wL, load_state g fs (ws_log w) = Ok wL /\ ws_fs wL = fs /\ ws_cache wL = [] /\ ws_log wL = ws_log w /\ ws_tbl wL = ws_tbl w /\ log_is wL ws /\ forall b, assoc_nat b (ws_disc wL) = option_map fst (last_applicable (producer_of g) ws b None) /\ assoc_nat b (ws_hashes wL) = option_map snd (last_applicable (producer_of g) ws b None).
+Proof. exact load_log_is. Qed.
+Print Assumptions C09_load_log_is.
+
+Theorem C09_persist_through_log : forall g fs w ws b bd reported w1 h, log_is w ws -> record_finished w b bd reported = Ok (w1, Some h) -> Forall in_bounds (ws ++ [wr_of bd (disc_of w1 b) h]) -> table_small (ws ++ [wr_of bd (disc_of w1 b) h]) -> exists wL, load_state g fs (ws_log w1) = Ok wL /\ ws_fs wL = fs /\ ws_cache wL = [] /\ ws_log wL = ws_log w1 /\ log_is wL (ws ++ [wr_of bd (disc_of w1 b) h]) /\ forall b', if applicable (producer_of g) (wr_of bd (disc_of w1 b) h) b' then disc_of wL b' = disc_of w1 b /\ assoc_nat b' (ws_hashes wL) = Some h else assoc_nat b' (ws_disc wL) = option_map fst (last_applicable (producer_of g) ws b' None) /\ assoc_nat b' (ws_hashes wL) = option_map snd (last_applicable (producer_of g) ws b' None).
+Proof. exact persist_through_log. Qed.
+Print Assumptions C09_persist_through_log.
+
+Theorem C09_persist_own_step : forall g fs w ws b bd reported w1 h, log_is w ws -> record_finished w b bd reported = Ok (w1, Some h) -> Forall in_bounds (ws ++ [wr_of bd (disc_of w1 b) h]) -> table_small (ws ++ [wr_of bd (disc_of w1 b) h]) -> wb_outs bd <> [] -> (forall o, In o (wb_outs bd) -> producer_of g o = Some b) -> exists wL, load_state g fs (ws_log w1) = Ok wL /\ ws_fs wL = fs /\ ws_cache wL = [] /\ disc_of wL b = disc_of w1 b /\ assoc_nat b (ws_hashes wL) = Some h.
+Proof. exact persist_own_step. Qed.
+Print Assumptions C09_persist_own_step.
